@@ -469,14 +469,24 @@ func (g *coreGen) stmts(ind, depth, n int, vars []gvar, rets []string) []gvar {
 		case x < 73: // range
 			g.kinds["range"]++
 			kv, vv := g.fresh("k"), g.fresh("e")
+			ranged := ""
 			if sv := varsOf(local, "[]int"); len(sv) > 0 && g.r.chance(70) {
-				g.line(ind, "for %s, %s := range %s {", kv, vv, pick(g.r, sv))
+				ranged = pick(g.r, sv)
+				g.line(ind, "for %s, %s := range %s {", kv, vv, ranged)
 			} else if sv := varsOf(local, "string"); len(sv) > 0 && g.r.chance(50) {
 				g.line(ind, "for %s, %s := range %s {", kv, vv, pick(g.r, sv))
 			} else {
 				g.line(ind, "for %s, %s := range []int{%d, %d, %d} {", kv, vv, g.r.intn(9), g.r.intn(9), g.r.intn(9))
 			}
 			g.line(ind+1, "fmt.Println(%s, %s)", kv, vv)
+			if ranged != "" && g.r.chance(60) {
+				// the body writes to an element the loop has not reached yet: only the LENGTH is fixed at loop start,
+				// the element is read when its turn comes (in-place prefix sums)
+				g.line(ind+1, "if %s+1 < len(%s) {", kv, ranged)
+				g.line(ind+2, "%s[%s+1] += %s", ranged, kv, vv)
+				g.line(ind+1, "}")
+				g.kinds["range body writes a later element"]++
+			}
 			inner := append(append([]gvar{}, local...), gvar{kv, "key"})
 			g.inLoop++
 			g.stmts(ind+1, depth-1, g.r.intn(3), inner, rets)
